@@ -111,6 +111,8 @@ pub fn panic_class(p: Box<dyn std::any::Any + Send>) -> String {
         "panic:capacity".into()
     } else if msg.contains("duplicate keys") {
         "panic:dup".into()
+    } else if msg.contains("no entry found for key") {
+        "panic:nokey".into()
     } else if msg.contains("not equivalent") {
         "panic:notequiv".into()
     } else {
